@@ -16,8 +16,8 @@ TABLE = [
     ('RIGHT.binding', '=RIGHT("abc",900001)', "self._right('abc', 900001)", ''),
     ('MID.binding', '=MID("abc",900001,900002)', "self._mid('abc', 900001, 900002)", ''),
     ('AMP.order', '=900001&900002', 'self._excel_value_to_string(900001) + self._excel_value_to_string(900002)', 'text forms joined in order'),
-    ('AMP.chain', '=900001&900002&900003', 'self._excel_value_to_string(900001) + self._excel_value_to_string(self._excel_value_to_string(900002) + self._excel_value_to_string(900003))',
-     'right-nested by the grammar; concatenation is associative'),
+    ('AMP.chain', '=900001&900002&900003', 'self._excel_value_to_string(900001) + self._excel_value_to_string(900002) + self._excel_value_to_string(900003)',
+     'a chain is emitted flat (CPython groups + from the left as Excel groups &)'),
     ('CONCATENATE.order', '=CONCATENATE(900001,"x",900002)',
      "self._excel_value_to_string(900001) + self._excel_value_to_string('x') + self._excel_value_to_string(900002)", ''),
     ('SEARCH.binding', '=SEARCH("a","abc",900001)', "self._search('a', 'abc', 900001)", ''),
